@@ -131,10 +131,22 @@ func Int(label string, lo, hi int) int {
 }
 
 // IntRange is a choice in [lo, hi] explored by case split (no solver).
-func IntRange(label string, lo, hi int) int { return lo + int(nextChoice("choice")) }
+func IntRange(label string, lo, hi int) int {
+	c := int(nextChoice("choice"))
+	if c < 0 || c > hi-lo {
+		c = 0
+	}
+	return lo + c
+}
 
 // Choice is a choice in [0, n) explored by case split.
-func Choice(label string, n int) int { return int(nextChoice("choice")) }
+func Choice(label string, n int) int {
+	c := int(nextChoice("choice"))
+	if c < 0 || c >= n {
+		c = 0
+	}
+	return c
+}
 
 func Param(name string) int {
 	v, ok := Load().Params[name]
